@@ -47,7 +47,7 @@ def _blank(job, status):
                 n_results=0, reached=[], samples=[], funcs=[], stubs=[], wall=0.0)
 
 
-def run_jobs(jobs, nproc=None, progress=None, mem_gb=None):
+def run_jobs(jobs, nproc=None, progress=None, mem_gb=None, deadline=None):
     nproc = nproc or int(os.environ.get("VERIF_JOBS", "0")) or min(16, os.cpu_count() or 4)
     nproc = max(1, min(nproc, len(jobs) or 1))
     if mem_gb is None:
@@ -58,12 +58,19 @@ def run_jobs(jobs, nproc=None, progress=None, mem_gb=None):
         mem_gb = max(2.0, min(8.0, total * 0.8 / nproc / (1 << 30)))
     mem_bytes = int(mem_gb * (1 << 30))
     tmpd = tempfile.mkdtemp(prefix="verif-jobs-")
-    order = sorted(range(len(jobs)), key=lambda i: -jobs[i].get("weight", 1))
+    if deadline is None:
+        order = sorted(range(len(jobs)), key=lambda i: -jobs[i].get("weight", 1))
+    else:
+        # core jobs first (heaviest first), then the deep table in the order given; deep jobs are not started after the deadline
+        order = sorted((i for i in range(len(jobs)) if jobs[i].get("core")), key=lambda i: -jobs[i].get("weight", 1)) + \
+            [i for i in range(len(jobs)) if not jobs[i].get("core")]
     pending = list(order)
     running = {}     # pid -> (idx, outpath, t0, limit)
     out = []
     try:
         while pending or running:
+            if deadline is not None and time.time() > deadline:
+                pending = [i for i in pending if jobs[i].get("core")]
             while pending and len(running) < nproc:
                 i = pending.pop(0)
                 job = jobs[i]
